@@ -146,13 +146,19 @@ func copyLocID(locID []byte) ([2]byte, error) {
 // * the starting RangePoint is the first IP of the Location, and we immediately know the LocID for this RangePoint
 // * the next RangePoint is the first IP _after_ the end of this Location, so it is marked as rangePointEnd, and the LocID is to be determined
 func (r *Rearranger) AddLocation(ipnet *net.IPNet, locID []byte) error {
-	maskLen, _ := ipnet.Mask.Size()
+	maskLen, maskBits := ipnet.Mask.Size()
+	// a default route has no network bits at all: /0 of its own family
+	// (an IPv4 network may come with a 32-bit mask or, v4-mapped, with a 128-bit one)
+	v4NoBits := (net.IPv6len - net.IPv4len) * 8
+	if maskBits == net.IPv4len*8 {
+		v4NoBits = 0
+	}
 	copiedLocID, err := copyLocID(locID)
 	if err != nil {
 		return err
 	}
 
-	if firstIPv6.EqualToNetIP(ipnet.IP.To16()) {
+	if maskLen == 0 && maskBits == net.IPv6len*8 && firstIPv6.EqualToNetIP(ipnet.IP.To16()) {
 		// it is ::/0
 		r.hasDefaultIPv6Range = true
 		defaultIPv6Location := rangeLocation{
@@ -170,7 +176,7 @@ func (r *Rearranger) AddLocation(ipnet *net.IPNet, locID []byte) error {
 			pointKind:  pointKindStart,
 			location:   defaultIPv6Location,
 		})
-	} else if firstIPv4.EqualToNetIP(ipnet.IP.To16()) {
+	} else if maskLen == v4NoBits && firstIPv4.EqualToNetIP(ipnet.IP.To16()) {
 		// it is 0.0.0.0/0
 		r.hasDefaultIPv4Range = true
 		r.points = append(r.points, &RangePoint{
